@@ -177,11 +177,13 @@ Definition S_nf_refuted : Prop :=
     existsb (fun s => c_local _ s && negb (c_sys _ s)) states = true /\
     hd 0%Z (c_nf _ final) <> sumZ (map bits_size (a_curr _ (c_arr _ final))).
 
-(** FULL statement for the concrete bookkeeping (all flags decided as the code does): the
-    counters after [run] are those of the synchronous iteration.  (Proved for the abstract
-    step and for the two bookkeeping disciplines separately; the induction over the
-    concrete state that ties them together is not done: see [S_systolic_legal],
-    [S_local_legal], [S_mode_independent].) *)
+(** The concrete bookkeeping ([curr_modified], [next_modified] and its partial clearing,
+    [must_be_checked] / [next_must_be_checked] and their swap, the local check list built
+    from the per-thread buffers, the systolic / local / pre-local flags decided from the
+    number of modified counters as the code does, on either store, with or without the
+    transpose, for every iteration bound): after every iteration of [run] the counters are
+    those of the synchronous iteration.  This includes the wake-up invariants of the
+    systolic and local modes and the local-but-not-systolic iterations. *)
 Definition S_concrete_full : Prop :=
   forall (L : Type) (join : L -> L -> L) (eqb : L -> L -> bool) (dflt : L) (size : L -> Z)
          (ext has_tr : bool) (g gt : graph) (ub : nat) (c0 : list L),
